@@ -109,7 +109,7 @@ theorem update_equal {v : Variant} {s : Sketch Rat} {m : Nat} {l : List Nat} {w 
     have hth : 1 / w * w = 1 := by field_simp
     rw [hth]
     have hrc : replaceContent item (1 : Rat) = ⟨1, [item], none⟩ := by simp [replaceContent]
-    rw [hrc, hsample, mergeSample_whole]
+    rw [mergeSampleV_eq_rat, replaceContentV_eq_rat _ _ (le_refl 1), hrc, hsample, mergeSample_whole]
     rfl
   unfold updateOr
   rw [e]
